@@ -214,6 +214,32 @@ def gen_case(rng, style=None) -> dict:
         for e in eqs:
             if e["lhs"] == lhs_names[0]:
                 e["identity"] = eqs[0]["identity"]
+    # ---- multi-step use of the model object: written in another order and re-ordered, sequentialized, copied ----------
+    prep = []
+    if neq >= 2 and rng.chance(0.4):
+        can_seq = not dup and not allow_forward_same and not allow_self
+        mode = rng.weighted([("shuffled_reorder", 4), ("shuffled_sequentialize", 3 if can_seq else 0), ("random_reorder", 2)])
+        perm = list(range(neq))
+        rng.shuffle(perm)
+        if mode == "random_reorder":
+            prep.append(["reorder", perm])
+        else:
+            eqs = [eqs[p] for p in perm]              # the source lists the equations in a shuffled order ...
+            if mode == "shuffled_reorder":
+                inv = [0] * neq
+                for k, p_ in enumerate(perm):
+                    inv[p_] = k
+                prep.append(["reorder", inv])         # ... and reorder_equations restores the intended one
+            else:
+                prep.append(["sequentialize"])        # ... and sequentialize() has to find a valid one
+        if rng.chance(0.25):
+            prep.append(["copy"])
+        if rng.chance(0.1):
+            perm2 = list(range(neq))
+            rng.shuffle(perm2)
+            prep.append(["reorder", perm2])
+    elif rng.chance(0.05):
+        prep.append(["copy"])
     toks = []
     for e in eqs:
         tokens_of(e["rhs"], toks)
@@ -301,7 +327,7 @@ def gen_case(rng, style=None) -> dict:
             if not p["when"] and rng.chance(0.03):
                 col[npre + c] = NAN
     return {
-        "style": style, "eqs": eqs, "pars": pars, "exo": exo, "npre": npre, "nper": nper, "npost": npost,
+        "style": style, "eqs": eqs, "prep": prep, "pars": pars, "exo": exo, "npre": npre, "nper": nper, "npost": npost,
         "plan": plan, "data": {k: [None if v != v else v for v in col] for k, col in data.items()},
         "freq": rng.choice(["ii", "qq", "yy"]), "start": rng.randint(5, 40),
     }
@@ -370,12 +396,12 @@ def out_names(case):
     return names
 
 
-def request_line(case, mode, order) -> str:
+def request_line(case, mode, order, eff=None) -> str:
     row = rows_of(case)
     npre, nper, npost = case["npre"], case["nper"], case["npost"]
     ncols = npre + nper + npost
     secs = [f"sim {mode} {order} {npre} {nper} {ncols}"]
-    for e in case["eqs"]:
+    for e in ([case["eqs"][i] for i in eff] if eff is not None else case["eqs"]):
         res = row.get("res_" + e["lhs"], 0)
         secs.append(f"E {row[e['lhs']]} {e['tr']} {1 if e['identity'] else 0} {res} {prefix(tuple_tree(e['rhs']), row)}")
     for p in case["plan"]:
@@ -398,10 +424,38 @@ def request_line(case, mode, order) -> str:
     return " ; ".join(secs)
 
 
-def build_impl(case):
+def apply_prep(m, case, counts=None):
+    """the operations a case performs on the model object between construction and simulation (`case["prep"]`):
+    ["reorder", perm] = reorder_equations(perm), ["sequentialize"], ["copy"].  Returns (model, effective order) where
+    effective order[k] = index in the SOURCE of the equation that is now at position k (for `reorder` computed here from the
+    documented meaning `new[k] = old[perm[k]]`; for `sequentialize` the order the call returns, checked to be a permutation)."""
+    eff = list(range(len(case["eqs"])))
+    for op in case.get("prep", []):
+        if op[0] == "reorder":
+            m.reorder_equations(list(op[1]))
+            eff = [eff[i] for i in op[1]]
+        elif op[0] == "sequentialize":
+            try:
+                o = [int(i) for i in m.sequentialize()]
+            except Exception:
+                if counts is not None:
+                    counts("prep_sequentialize_refused")
+                continue
+            if sorted(o) != list(range(len(eff))):
+                raise ValueError("sequentialize() did not return a permutation")
+            eff = [eff[i] for i in o]
+        elif op[0] == "copy":
+            m = m.copy()
+        else:
+            raise ValueError("unknown preparation step")
+    return m, eff
+
+
+def build_impl(case, counts=None):
     m = ir.Sequential.from_string(source_of(case))
     if case["pars"]:
         m.assign(**case["pars"])
+    m, eff = apply_prep(m, case, counts)
     p0 = period0(case)
     npre, nper, npost = case["npre"], case["nper"], case["npost"]
     span = p0 >> (p0 + nper - 1)
@@ -418,13 +472,18 @@ def build_impl(case):
             if p["shift"] != -1:
                 kw["shift"] = p["shift"]
             plan.exogenize(tuple(p0 + c for c in p["cols"]), p["name"], transform=PLAN_KW[p["kind"]], **kw)
-    return m, db, span, plan
+    return m, db, span, plan, eff
 
 
-def run_impl(case, order):
-    """-> ("ok", {name: [values over the base periods]}) or ("err:bad", None)"""
+def run_impl(case, order, built=None):
+    """-> ("ok", {name: [values over the base periods]}) or ("err:bad", None); `built` = result of build_impl (the same model
+    object then serves both execution orders) or the exception it raised"""
     try:
-        m, db, span, plan = build_impl(case)
+        if built is None:
+            built = build_impl(case)
+        if isinstance(built, BaseException):
+            raise built
+        m, db, span, plan, _ = built
         out = m.simulate(db, span, plan=plan, when_simulates_nan="silent",
                          execution_order="dates_equations" if order == "de" else "equations_dates")
     except Exception as e:
@@ -562,13 +621,15 @@ def text_names(text):
     return out
 
 
-def oracle(ctx: Ctx, case, order, status, vals, out_db, tag=""):
+def oracle(ctx: Ctx, case, order, status, vals, out_db, eff=None):
     """the property statement, checked on the implementation's output with nothing from the Lean model"""
     if status != "ok":
         return None
     flags = []
     src = source_of(case)
     eq_texts = [l.strip().rstrip(";") for l in src.split("!equations", 1)[1].strip().split("\n") if l.strip()]
+    if eff is not None:
+        eq_texts = [eq_texts[i] for i in eff]     # the model object was re-ordered before it was simulated
     npre, nper = case["npre"], case["nper"]
     p0 = period0(case)
     span_all = (p0 - npre) >> (p0 + nper - 1 + case["npost"])
@@ -760,7 +821,7 @@ def compare_case(ctx: Ctx, case, order, status, vals, reply_r, reply_f):
                     ctx.disagree("simulate", key, f"{n}[{c}]={a!r}", f"{n}[{c}]={b!r} (tolerance {tol:g})")
                     return
     if "X" in tags and "S" in tags:
-        ctx.nontriv(("sim", order, len(case["eqs"]), case["nper"], tuple(sorted(set(e["tr"] for e in case["eqs"]))),
+        ctx.nontriv(("sim", order, tuple(op[0] for op in case.get("prep", [])), len(case["eqs"]), case["nper"], tuple(sorted(set(e["tr"] for e in case["eqs"]))),
                      tuple(sorted(set(p["kind"] for p in case["plan"]))), "W" in tags, exact))
     elif len(case["eqs"]) >= 2 and case["nper"] >= 2:
         ctx.nontriv(("sim", order, len(case["eqs"]), case["nper"], tuple(sorted(set(e["tr"] for e in case["eqs"]))), exact))
@@ -768,12 +829,24 @@ def compare_case(ctx: Ctx, case, order, status, vals, reply_r, reply_f):
 
 def run_cases(ctx: Ctx, cases, with_model=True):
     """all cases x both orders: implementation, model (R and F), comparison, oracle"""
-    jobs = [(c, o) for c in cases for o in ("de", "ed")]
-    lines_r = [request_line(c, "R", o) for c, o in jobs]
-    lines_f = [request_line(c, "F", o) for c, o in jobs]
+    built = []
+    for c in cases:
+        try:
+            built.append(build_impl(c, ctx.count))
+        except Exception as e:
+            built.append(e)
+    effs = [None if isinstance(b, BaseException) else b[4] for b in built]
+    jobs = [(ci, o) for ci in range(len(cases)) for o in ("de", "ed")]
+    lines_r = [request_line(cases[ci], "R", o, effs[ci]) for ci, o in jobs]
+    lines_f = [request_line(cases[ci], "F", o, effs[ci]) for ci, o in jobs]
     rep = ctx.model("C17", lines_r + lines_f) if with_model else None
-    for k, (case, order) in enumerate(jobs):
-        status, vals, out_db = run_impl(case, order)
+    for k, (ci, order) in enumerate(jobs):
+        case, eff = cases[ci], effs[ci]
+        status, vals, out_db = run_impl(case, order, built[ci])
+        for op in case.get("prep", []):
+            ctx.count("prep_" + op[0])
+        if eff is not None and eff != list(range(len(eff))):
+            ctx.count("prep_order_changed")
         ctx.evaluations += 1
         ctx.count("order_" + order)
         ctx.count("style_" + case["style"])
@@ -785,7 +858,7 @@ def run_cases(ctx: Ctx, cases, with_model=True):
         ctx.count("impl_" + status)
         if rep is not None:
             compare_case(ctx, case, order, status, vals, rep[k], rep[len(jobs) + k])
-        oflags = oracle(ctx, case, order, status, vals, out_db)
+        oflags = oracle(ctx, case, order, status, vals, out_db, eff)
         if rep is not None and oflags is not None and rep[len(jobs) + k].startswith("ok "):
             # E-class stream: "this step computes its value after everything it reads" as decided by the model (`stepOK`)
             # and, independently, by the oracle from the equation texts
@@ -794,7 +867,7 @@ def run_cases(ctx: Ctx, cases, with_model=True):
             if mflags != oflags:
                 ctx.disagree("admissible", {"case": case, "order": order}, oflags, mflags)
         if k % max(1, len(jobs) // 3) == 0:
-            ctx.sample({"source": source_of(case), "order": order, "plan": case["plan"], "status": status,
+            ctx.sample({"source": source_of(case), "prep": case.get("prep", []), "order": order, "plan": case["plan"], "status": status,
                         "output": {n: [None if is_nan(x) else x for x in v] for n, v in (vals or {}).items()}})
 
 
@@ -803,7 +876,7 @@ def probe_rejections(ctx: Ctx, rng, n):
     for _ in range(n):
         case = gen_case(rng.fork("rej"))
         try:
-            m, db, span, _ = build_impl({**case, "plan": []})
+            m, db, span, _, _ = build_impl({**case, "plan": [], "prep": []})
         except Exception:
             continue
         idents = sorted(set(e["lhs"] for e in case["eqs"] if e["identity"]) - set(e["lhs"] for e in case["eqs"] if not e["identity"]))
@@ -829,7 +902,8 @@ def probe_rejections(ctx: Ctx, rng, n):
 RULE = ("random sequential models (1-8 equations; LHS transforms none/log/diff/diff_log/roc/pct; identities; lags <= 3, leads, "
         "occasional duplicate LHS / forward same-period reads / self reads to reach non-admissible steps) x random data with NaNs x "
         "residual paths (absent, sparse, dense, NaN) x plans (exogenize with transforms none/log/diff/diff_log/roc/pct/flat, when_data, "
-        "shifts -1..-3) x both execution orders. A case is non-trivial when it has >= 2 equations and >= 2 periods or mixes simulated and "
+        "shifts -1..-3) x multi-step use of the model object before simulating (source written in a shuffled order then reorder_equations / "
+        "sequentialize(), random re-orderings, copy(); the same object simulated under both orders) x both execution orders. A case is non-trivial when it has >= 2 equations and >= 2 periods or mixes simulated and "
         "exogenized steps; distinct = distinct (order, #equations, #periods, set of LHS transforms, set of plan transforms, fallback seen, exact class)")
 
 
